@@ -36,8 +36,24 @@ def execute_core(sc, workdir, prop, monitors, tags=None):
     lines = [b[0] for b in v["bad"] if b[1] in tags]
     hint = None
     if lines and not sc.get("confirm_hint"):
-        # event on trace line n is events[n-2] (line 1 = header); stop the confirmation run a little after it
-        hint = r["events"][min(lines) - 2].get("t", 0) // r["header"]["nphases"] + 64
+        # event on trace line n is events[n-2] (line 1 = header); stop the confirmation run a little after the earliest moment at
+        # which some clause of this property is already broken.  End-of-run clauses ("never accepted", "overdue at end") are
+        # broken as soon as their bound has passed, long before the (possibly hung) run ends.
+        cands = []
+        for b in v["bad"]:
+            if b[1] not in tags:
+                continue
+            t = r["events"][b[0] - 2].get("t", 0)
+            clause = str(b[2])
+            try:
+                if "never" in clause and len(b) >= 7:          # [line, prop, clause, port, t0, t_end, bound, ...]
+                    t = min(t, int(b[4]) + int(b[6]) + 1)
+                elif "overdue at end" in clause and len(b) >= 6:   # [line, prop, clause, k, t_end, due]
+                    t = min(t, int(b[5]) + 1)
+            except (TypeError, ValueError):
+                pass
+            cands.append(t)
+        hint = min(cands) // r["header"]["nphases"] + 64
     others = sorted({(b[1], b[2]) for b in v["bad"] if b[1] not in tags})
     if r["timed_out"] and not v["bad"]:
         # a run that does not terminate must be explained by some rejected clause (lost strobe, starvation, ...)
